@@ -530,6 +530,11 @@ func convertValue(srcVal reflect.Value, dstType reflect.Type) (reflect.Value, er
 		srcVal = srcVal.Elem()
 	}
 
+	// A nil value (e.g. a nil slice that was encoded as `null`) converts to the zero value
+	if !srcVal.IsValid() {
+		return reflect.Zero(dstType), nil
+	}
+
 	if srcVal.Type().ConvertibleTo(dstType) {
 		return srcVal.Convert(dstType), nil
 	}
